@@ -5,9 +5,15 @@ What is enumerated (always completely, on the real `all_instances` / `get_all_to
 * *slices* of the tokenizer space: `all_instances(MazeTokenizerModular, {**DEFAULT_VALIDATION_FUNCS, pins})`, where a pin is
   an extra validation function on an element family that still calls `is_valid` and then restricts the family
   (a) to a residue class of crc32(params) - a *partition* of whatever the library produces (used for the full-space
-  census: 12 x 6 slices over adjacency-list x path tokenizers), or (b) to an explicit box (stars around the two legacy
-  tokenizers, boxes with 2..5 free axes and all other axes pinned at rotating corners);
+  census: 12 x 6 slices over adjacency-list x path tokenizers), or (b) to an explicit box (stars = everything that
+  differs in one top-level element from the two legacy tokenizers and from a far corner; boxes with 3..8 free axes and
+  all other axes pinned at rotating corners);
+* the same slice in child interpreters with PYTHONHASHSEED in {0,1,2,4242,random};
 * thorough: additionally the un-sliced real `get_all_tokenizers()` in one process.
+
+Depth of judgement per slice (`level`): S_STRUCT configuration multiset and count; S_NAMES + names / hashes distinct, an
+independently constructed equal tokenizer agrees, is_legacy_equivalent; S_LOAD + load(serialize()); S_ZANJ + ZANJ file.
+quick: census S_STRUCT (all 5,878,656), stars/boxes S_NAMES..S_ZANJ.  thorough: census S_NAMES (all), 6 census slices S_LOAD.
 
 A tokenizer is identified by its *configuration* `params_of_tok(t)`: class names and field values read off the object
 (`vars`), never by its name/hash/== (those are what the property is about).  The reference model is the explicit
@@ -137,9 +143,10 @@ def ref_name(p):
 
 
 def ref_hashes(name):
+    """(hash(tok), tok.hash_b64()) as functions of the name that use nothing seeded"""
     n = int.from_bytes(hashlib.blake2b(name.encode("utf-8")).digest(), "big")
     b64 = base64.b64encode((n % (1 << 64)).to_bytes(8, "big"), altchars=b"-_").decode().rstrip("=")
-    return n % P61, n, b64
+    return n % P61, b64
 
 
 def cfg_digest(p):
@@ -449,7 +456,7 @@ def run_slice(spec, res, only=None, tmp=None, tid=0, collect=None):
             # ---- names and hashes
             rn = ref_name(p)
             ok, nm = attempt(res, f"C15|name|{p[0]}", rn, rp, lambda: t.name)
-            ok2, hv = attempt(res, f"C15|hash|{p[0]}", rn, rp, lambda: (hash(t), t.hash_int(), t.hash_b64()))
+            ok2, hv = attempt(res, f"C15|hash|{p[0]}", rn, rp, lambda: (hash(t), t.hash_b64()))
             if not (ok and ok2):
                 continue
             if not isinstance(nm, str) or not isinstance(hv[0], int):
@@ -457,24 +464,23 @@ def run_slice(spec, res, only=None, tmp=None, tid=0, collect=None):
                 continue
             n_name_ref += nm == rn
             n_hash_ref += hv == ref_hashes(nm)
-            for label, store, val in (("name", names, nm), ("hash", h61s, hv[0]), ("hash_b64", b64s, hv[2])):
+            for label, store, val in (("name", names, nm), ("hash", h61s, hv[0]), ("hash_b64", b64s, hv[1])):
                 other = store.setdefault(val, (p, cd, nm))
                 if other[0] != p and (label == "name" or other[2] != nm):  # equal names imply equal hashes: reported once, as a name collision
                     res.fail(f"C15|{label}|collision|distinct configurations",
                              f"two distinct tokenizers have the same {label} {val!r}: {ref_name(p)} and {ref_name(other[0])}",
                              dict(base, only=[cd, other[1]]))
-            rows.append((int(cd, 16), int(digest(nm), 16), hv[0] & M64, int(digest(hv[2]), 16), tid))
+            rows.append((int(cd, 16), int(digest(nm), 16), hv[0] & M64, int(digest(hv[1]), 16), tid))
             if n % 997 == 1:
-                res.sample(dict(cfg=cd, name=nm, hash=hv[0], hash_b64=hv[2], scope=scope), cap=2)
+                res.sample(dict(cfg=cd, name=nm, hash=hv[0], hash_b64=hv[1], scope=scope), cap=2)
             # ---- an equal tokenizer built independently has the same name and hash
             ok, b = attempt(res, f"C15|equal_copy|{p[0]}|construct", rn, rp, lambda: build_tok(p, bcache))
             if ok:
-                ok, r = attempt(res, f"C15|equal_copy|{p[0]}", rn, rp, lambda: (b == t, b.name, hash(b), b.hash_b64()))
+                ok, r = attempt(res, f"C15|equal_copy|{p[0]}", rn, rp, lambda: (b == t, b.name, hash(b)))
                 if ok and (r[0] is not True or params_of_tok(b, None) != p):
                     res.fail(f"C15|equal_copy|{p[0]}|not equal", f"tokenizer built from the same parameters is not == the enumerated one: {rn}", rp)
-                elif ok and r[1:] != (nm, hv[0], hv[2]):
-                    res.fail(f"C15|equal_copy|{p[0]}|name or hash differs",
-                             f"equal tokenizers differ in name/hash: {r[1:]} vs {(nm, hv[0], hv[2])}", rp)
+                elif ok and r[1:] != (nm, hv[0]):
+                    res.fail(f"C15|equal_copy|{p[0]}|name or hash differs", f"equal tokenizers differ in name/hash: {r[1:]} vs {(nm, hv[0])}", rp)
             # ---- legacy equivalence
             ok, le = attempt(res, f"C15|is_legacy_equivalent|{p[0]}", rn, rp, lambda: t.is_legacy_equivalent())
             if ok and bool(le) != (p in legacy):
